@@ -13,7 +13,7 @@ Driver for property C03.  One operation per line (tokens separated by single spa
       (oobFDs=None) or the length of the list given; pre = what marshal.marshal does with the body:
       `-` (not called: no signature), `ok:<byteshex>:<n>` (bytes, length of the descriptor list afterwards),
       `err:<ExceptionName>`.
-      -> `ok serial=<n> next=<n> raw=<hex> hdr=<hex> pad=<hex> body=<hex> ufds=<attr> wf=<0|1|->`   (wf: Spec.decodeMsg accepts rawMessage; - when longer than 4096)
+      -> `ok serial=<n> next=<n> raw=<hex> hdr=<hex> pad=<hex> body=<hex> ufds=<attr> wf=<0|1|->`   (wf: Spec.decodeMsg accepts rawMessage; - when longer than 262144)
        | `err kind=<ExceptionName> next=<n>`
   parse <byteshex> <fds>      parseMessage; fds = N | - (empty list) | comma separated integers
       -> `ok type=<n> serial=<n> er=<T|F> as=<T|F> path=<attr> … unix_fds=<attr> hdr=<n> pad=<hex> body=<hex>`
@@ -98,7 +98,7 @@ def attrStr : PyVal → String
 
 /-- The strict specification decoder on the bytes (`-` for long messages: it re-encodes). -/
 def wfBit (raw : Bytes) : String :=
-  if raw.length > 4096 then "-"
+  if raw.length > 262144 then "-"
   else match Spec.decodeMsg raw with
     | some _ => "1"
     | none => "0"
